@@ -4,8 +4,9 @@ import glob, json, os, shutil, subprocess, sys, tempfile, time
 VERIF = os.path.dirname(os.path.dirname(os.path.abspath(__file__)))
 
 
-def determinism(check, props=None, runs=240):
-    """Every property: run indices 0..runs-1 in 3 fresh processes at GOMAXPROCS 1, 4, 16; event-log hashes must agree."""
+def determinism(check, props=None, runs=240, nprocs=3):
+    """Every property: run indices 0..runs-1 in nprocs fresh processes cycling through GOMAXPROCS 1, 4, 16 (plus one
+    race-built process for C19); the per-run event-log hashes must agree."""
     from props import PROPS
     b = check.Build(race=True)
     bad = 0
@@ -17,7 +18,7 @@ def determinism(check, props=None, runs=240):
             for extra in extra_sets:
                 results = []
                 procs = []
-                for i, gmp in enumerate(["1", "4", "16"]):
+                for i, gmp in enumerate((["1", "4", "16"] * ((nprocs + 2) // 3))[:nprocs]):
                     out = os.path.join(b.dir, "det-%s-%d" % (prop, i))
                     cmd = check.worker_cmd(b.plain_bin, b.sites, "batch", prop, 1, out,
                                            ["-sim.from", "0", "-sim.to", str(runs), "-sim.hashevery", "1"] + extra)
@@ -36,7 +37,7 @@ def determinism(check, props=None, runs=240):
                 ref = results[0]
                 same = all(r == ref for r in results[1:])
                 print("determinism %s %s: %d runs x %d processes (GOMAXPROCS 1/4/16%s): %s" % (
-                    prop, " ".join(extra), len(ref), len(results), " + race build" if len(results) > 3 else "",
+                    prop, " ".join(extra), len(ref), len(results), " + race build" if len(results) > nprocs else "",
                     "identical" if same else "DIFFERENT"))
                 if not same:
                     bad += 1
@@ -76,6 +77,20 @@ def mutants(check, only=None, tier="quick"):
     """Applies every patch of mutants/ to a scratch clone of /repo; the check of each named property must report a violation
     and its replay must reproduce (check does that itself before printing VIOLATION)."""
     idx = json.load(open(os.path.join(VERIF, "mutants", "INDEX.json")))
+    return run_changes(check, idx, only, tier, os.path.join(VERIF, "mutants", "LAST_RUN.json"))
+
+
+def seeded(check, only=None, tier="quick"):
+    """The independently written changes under seeded/: each must be reported by the check of its property."""
+    idx = []
+    for d in sorted(glob.glob(os.path.join(VERIF, "seeded", "*"))):
+        meta = os.path.join(d, "meta.json")
+        if os.path.exists(meta):
+            idx.append({"name": os.path.basename(d), "patch": os.path.join(d, "patch.diff"), "props": [json.load(open(meta))["property"]]})
+    return run_changes(check, idx, only, tier, os.path.join(VERIF, "seeded", "LAST_RUN.json"))
+
+
+def run_changes(check, idx, only, tier, report):
     failed = 0
     rows = []
     for m in idx:
@@ -94,7 +109,7 @@ def mutants(check, only=None, tier="quick"):
                 failed += 1
                 continue
             env = check.goenv()
-            t = subprocess.run(["go", "test", "-vet=off", "-count=1", "./..."], cwd=repo, env=env, capture_output=True, text=True)
+            t = subprocess.run(["go", "test", "-vet=off", "-count=1", "./test/..."], cwd=repo, env=env, capture_output=True, text=True)
             tests_pass = t.returncode == 0
             for prop in m["props"]:
                 e = dict(os.environ)
@@ -112,16 +127,28 @@ def mutants(check, only=None, tier="quick"):
         finally:
             shutil.rmtree(scratch, ignore_errors=True)
     json.dump([dict(mutant=r[0], property=r[1], repo_tests_pass=r[2], caught=r[3], classes=r[4], seconds=r[5]) for r in rows],
-              open(os.path.join(VERIF, "mutants", "LAST_RUN.json"), "w"), indent=1)
+              open(report, "w"), indent=1)
     return 2 if failed else 0
 
 
 def main(argv, check):
     if argv[0] == "selftest-determinism":
-        return determinism(check, argv[1:] or None)
+        args = argv[1:]
+        runs, nprocs = 240, 3
+        if "--procs" in args:
+            k = args.index("--procs")
+            nprocs = int(args[k + 1])
+            del args[k:k + 2]
+        if "--runs" in args:
+            k = args.index("--runs")
+            runs = int(args[k + 1])
+            del args[k:k + 2]
+        return determinism(check, args or None, runs=runs, nprocs=nprocs)
     if argv[0] == "selftest-null":
         return null_workload(check)
     if argv[0] == "selftest-mutants":
         return mutants(check, argv[1:] or None)
+    if argv[0] == "selftest-seeded":
+        return seeded(check, argv[1:] or None)
     print("unknown selftest")
     return 2
